@@ -217,7 +217,7 @@ class CliSim(object):
             if k.startswith("fired:"):
                 fired[k[6:]] += v
         return {"violation": self.violation, "digest": digest, "stats": dict(self.stats), "fired": dict(fired),
-                "states": [], "log": self.log, "steps": self.stats.get("commands", 0)}
+                "states": [], "log": self.log, "steps": self.stats.get("commands", 0), "sim_time": float(self.env.span)}
 
     # ------------------------------------------------------------------ cases
     def case_env(self, step, case):
@@ -275,7 +275,15 @@ class CliSim(object):
                                                          "out_a": self.brief(a), "out_b": self.brief(b)})
 
     def case_reject(self, step, case):
+        for name, text in (case.get("configs") or {}).items():
+            with open(name, "w") as f:
+                f.write(text)
+        if case.get("via_config"):
+            self.stats["probe:reject_via_config"] += 1
         o = self.run_cmd(case["argv"])
+        for name in (case.get("configs") or {}):
+            if os.path.exists(name):
+                os.remove(name)
         self.emit({"i": step, "kind": "reject", "cls": case["cls"], "o": self.odig(o)})
         self.stats["rel_reject"] += 1
         self.stats["reject:" + case["cls"]] += 1
